@@ -1,5 +1,7 @@
 // C20 case and oracles (shared by the rapidcheck harness and the libFuzzer target f20).
 #pragma once
+#include <sys/stat.h>
+#include <unistd.h>
 #include "engine.h"
 #include "indep.h"
 #include <fstream>
@@ -31,7 +33,8 @@ struct RunResult {
 
 // the object lives in storage pre-filled with `pattern`, the stack below the calls is pre-filled with it too:
 // any statistic that depends on an uninitialised member or local differs between two patterns
-inline RunResult runApi(const SolverCfg& cfg, int gridFile, const std::string& fr, const std::string& ft, unsigned char pattern, int verbosity = 0)
+inline RunResult runApi(const SolverCfg& cfg, int gridFile, const std::string& fr, const std::string& ft, unsigned char pattern, int verbosity = 0,
+                        int paraview = 0, int writeGrid = 0)
 {
     RunResult r;
     void* raw = ::operator new(sizeof(GMGPolar));
@@ -55,6 +58,15 @@ inline RunResult runApi(const SolverCfg& cfg, int gridFile, const std::string& f
             s->file_grid_radii(fr);
             s->file_grid_angles(ft);
         }
+        else if (writeGrid) {
+            // the solver writes its finest grid to the two files during setup()
+            s->write_grid_file(true);
+            s->file_grid_radii(fr);
+            s->file_grid_angles(ft);
+        }
+        // output options: VTK files of the grids, the solution and the error go to the current directory (a scratch
+        // directory, see runApiCase); they must not change anything else
+        s->paraview(paraview != 0);
         // 'verbose' is a diagnostic option: it must not change anything but the output (stdout is discarded meanwhile)
         s->verbose(verbosity);
         fflush(stdout);
@@ -138,9 +150,50 @@ inline Outcome runApiCase(const KV& c)
         for (int j = 0; j <= nt; j++)
             b << std::fixed << (j == nt ? 2 * M_PI : 2 * M_PI * j / nt) << "\n";
     }
+    // scratch working directory (VTK output lands in the current directory)
+    const int paraview2 = (int)c.getI("paraview2", 0), writeGrid = gridFile ? 0 : (int)c.getI("write_grid", 0);
+    const std::string scratch = tmpBase() + "_d";
+    char oldcwd[4096];
+    const bool haveCwd = getcwd(oldcwd, sizeof oldcwd) != nullptr;
+    if (paraview2) {
+        mkdir(scratch.c_str(), 0700);
+        if (chdir(scratch.c_str()) != 0)
+            o.cls("scratch_dir_unavailable");
+    }
     RunResult r1 = runApi(cfg, gridFile, fr, ft, 0x5a);
-    RunResult r2 = runApi(cfg, gridFile, fr, ft, 0xc3, (int)c.getI("verbose2", 0));
-    if (gridFile) {
+    // second run: other memory pattern, generated verbosity, and the output options switched on - none of them may
+    // change a statistic or the solution
+    RunResult r2 = runApi(cfg, gridFile, fr, ft, 0xc3, (int)c.getI("verbose2", 0), paraview2, writeGrid);
+    if (paraview2) {
+        if (!r2.threw && cfg.max_its >= 0) {
+            struct stat st;
+            if (stat((scratch + "/output_finest_grid.vtu").c_str(), &st) == 0 && st.st_size > 0)
+                o.cls("vtk_written");
+        }
+        for (const char* f : {"output_finest_grid.vtu", "output_coarsest_grid.vtu", "output_solution.vtu", "output_error.vtu"})
+            std::remove((scratch + "/" + f).c_str());
+        if (haveCwd && chdir(oldcwd) != 0)
+            o.cls("scratch_dir_unavailable");
+        rmdir(scratch.c_str());
+    }
+    if (writeGrid && !r2.threw) {
+        // what setup() wrote loads back as a grid of the same dimensions (the accuracy of the round trip is C18's subject)
+        try {
+            PolarGrid back(fr, ft);
+            if (back.nr() != r2.nr || back.ntheta() != r2.nt) {
+                o.fail("written_grid", "the grid files written by setup() load back with other dimensions");
+                return o;
+            }
+            o.cls("grid_written_and_loaded");
+        }
+        catch (const std::exception& e) {
+            if (cfg.R0 >= 1e-15 * cfg.Rmax) {
+                o.fail("written_grid", std::string("the grid files written by setup() do not load back: ") + e.what());
+                return o;
+            }
+        }
+    }
+    if (gridFile || writeGrid) {
         std::remove(fr.c_str());
         std::remove(ft.c_str());
     }
@@ -269,6 +322,8 @@ inline Outcome runCliCase(const KV& c)
     const char* root = getenv("VERIF_BUILD_ASAN");
     const std::string exe = std::string(root ? root : "/verif/build/asan") + "/gmgpolar_cli";
     std::string errFile   = tmpBase() + "_cli_err.txt";
+    const std::string scratch = tmpBase() + "_cd";
+    mkdir(scratch.c_str(), 0700);
     fflush(nullptr);
     pid_t pid = fork();
     if (pid == 0) {
@@ -283,6 +338,9 @@ inline Outcome runCliCase(const KV& c)
         for (auto& a : args)
             av.push_back(const_cast<char*>(a.c_str()));
         av.push_back(nullptr);
+        // scratch working directory: VTK output and relative grid file names land there
+        if (chdir(scratch.c_str()) != 0)
+            _exit(126);
         setenv("OMP_NUM_THREADS", "2", 1);
         setenv("ASAN_OPTIONS", "detect_leaks=0:abort_on_error=1", 1);
         setenv("UBSAN_OPTIONS", "halt_on_error=1:print_stacktrace=1", 1);
@@ -292,6 +350,10 @@ inline Outcome runCliCase(const KV& c)
     }
     int status = 0;
     waitpid(pid, &status, 0);
+    for (const char* f : {"output_finest_grid.vtu", "output_coarsest_grid.vtu", "output_solution.vtu", "output_error.vtu", "_r.txt", "_t.txt",
+                          "radii_out.txt", "angles_out.txt"})
+        std::remove((scratch + "/" + f).c_str());
+    rmdir(scratch.c_str());
     std::string err;
     {
         std::ifstream f(errFile);
@@ -382,6 +444,8 @@ inline KV genOptionsCase()
         s.put(c);
         c.putI("grid_file", rweighted({8, 1, 1, 1, 1, 1}));
         c.putI("verbose2", rweighted({1, 1, 1})); // verbosity of the second run (the first one is silent)
+        c.putI("paraview2", rweighted({3, 1}));
+        c.putI("write_grid", rweighted({4, 1}));
     }
     else {
         c.putS("part", "cli");
@@ -422,6 +486,11 @@ inline KV genOptionsCase()
             {"--stencilDistributionMethod", {"0", "1"}, {"2", "-1"}},
             {"--cacheDensityProfileCoefficients", {"0", "1"}, {"2"}},
             {"--cacheDomainGeometry", {"0", "1"}, {"2"}},
+            {"--paraview", {"0", "1", "1"}, {"2", "-1"}},
+            {"--write_grid_file", {"0", "1"}, {"2"}},
+            {"--load_grid_file", {"0", "1"}, {"2"}},
+            {"--file_grid_radii", {"_r.txt", "radii_out.txt"}, {""}},
+            {"--file_grid_angles", {"_t.txt", "angles_out.txt"}, {""}},
         };
         std::string argv = "--verbose\x1f" "0\x1f--nr_exp\x1f" + std::string(rpick({"3", "3", "4"}));
         const int nopt = rint(0, 7);
